@@ -30,7 +30,9 @@ def worlds(tier, rng, real, classes, attrs=False, nmax=6):
             k = rng.choice(classes)
             a = rng.randrange(nv)
             b = a if rng.random() < 0.2 else rng.randrange(nv)
-            lines.append("edge %s V%d V%d%s" % (k, a, b, " x=7" if (k in ("D", "U") and rng.random() < 0.3) else ""))
+            # links carry user data too — fields named `directed`, `kind`, `name`, … that the renderers must not consult
+            la = " la=%d" % rng.choice([1, 2, 3]) if (k in ("D", "U", "UU", "X", "DU") and rng.random() < 0.3) else ""
+            lines.append("edge %s V%d V%d%s%s" % (k, a, b, " x=7" if (k in ("D", "U") and rng.random() < 0.3) else "", la))
         if rng.random() < 0.08:
             lines.append("edge D V0 -")
         if rng.random() < 0.05:
